@@ -101,7 +101,7 @@ def reuse_sequences(ctx, eps, grad=False):
         for rep in range(3 if ctx.tier == "quick" else 10):
             n, K = [(4, 2), (5, 3), (6, 3), (7, 4)][rs.randint(4)]
             g = gl.real_gemini(cls, ovo, eps)
-            hist = []
+            hist, held = [], []
             # variants: fresh arrays / ONE buffer refilled in place (same Python object, new content) / affinities obtained
             # from a second object's compute_affinity interleaved with the evaluations
             variant = ["fresh", "buffer", "fresh"][rep % 3] if cls in ("mmd", "wass") else "fresh"
@@ -135,6 +135,16 @@ def reuse_sequences(ctx, eps, grad=False):
                                   {"config": f"{cls}_{'ovo' if ovo else 'ova'}", "sequence": hist}, key=f"reuse-raise:{cls}", how=how)
                     break
                 sc = float(r[0] if wg else r)
+                # results handed out earlier by this object stay what they were (no shared work array behind them)
+                for (g_arr, g_copy, k_step) in held:
+                    if not np.array_equal(g_arr, g_copy, equal_nan=True):
+                        ctx.violation(f"the gradient returned by evaluation number {k_step + 1} was overwritten by evaluation number {step + 1} "
+                                      f"on the same object", "score:reuse", {"config": f"{cls}_{'ovo' if ovo else 'ova'}", "sequence": hist},
+                                      key=f"returned-array-overwritten:{cls}_{'ovo' if ovo else 'ova'}", how=how)
+                        held = []
+                        break
+                if wg:
+                    held.append((r[1], np.array(r[1], copy=True), step))
                 ctx.compared("score:reuse")
                 ctx.count("reuse:" + variant + (":scaled" if mag != 1.0 else ""))
                 ctx.case(("reuse", cls, ovo, P.tobytes(), None if A is None else A.tobytes(), step), step > 0, None)
@@ -151,10 +161,46 @@ def reuse_sequences(ctx, eps, grad=False):
                                   key=f"reuse:{cls}_{'ovo' if ovo else 'ova'}", how=how)
                     break
     if not grad:
+        model_level_scores(ctx, rs)
         affinity_then_evaluate(ctx, eps, rs)
         integer_costs(ctx, eps, rs)
         large_n(ctx, eps, rs)
     return out
+
+
+def model_level_scores(ctx, rs):
+    """the score a MODEL reports is the documented objective of its predictions on the whole of X, whatever the training
+    hyperparameters (batch_size among them) are: every registry name through LinearModel.score"""
+    from gemclus.linear import LinearModel
+    from gemclus.gemini._utils import AVAILABLE_GEMINIS
+    from sklearn.metrics import pairwise_kernels, pairwise_distances
+    how = "LinearModel(gemini=name, batch_size=b, max_iter=1).fit(X).score(X) vs harness.gemini_lib.spec_score(predict_proba(X), affinity of X)"
+    for name in sorted(AVAILABLE_GEMINIS):
+        n, d, K = int(rs.randint(9, 14)), 2, int(rs.randint(2, 4))
+        X = rs.randn(n, d)
+        bs = [None, 4, n - 1][rs.randint(3)]
+        try:
+            m = LinearModel(n_clusters=K, gemini=name, batch_size=bs, max_iter=1, random_state=int(rs.randint(100))).fit(X)
+            got = float(m.score(X))
+            P = np.asarray(m.predict_proba(X))
+        except Exception as e:
+            ctx.violation(f"LinearModel(gemini={name!r}, batch_size={bs}).fit/score raised {type(e).__name__}: {e}", "score:model",
+                          {"name": name, "batch_size": bs, "X": X.tolist()}, key=f"model-score-raise:{name}", how=how)
+            continue
+        cls = "kl" if name == "mi" else name.split("_")[0].replace("wasserstein", "wass")
+        ovo = name.endswith("_ovo")
+        A = pairwise_kernels(X, metric="linear") if cls == "mmd" else (pairwise_distances(X, metric="euclidean") if cls == "wass" else None)
+        try:
+            want = gl.spec_score(cls, ovo, P, A)
+        except RuntimeError:
+            continue
+        ctx.compared("score:model-level")
+        ctx.case(("model-score", name, bs, X.tobytes()), True, None)
+        tol = score_tol(cls, A)
+        if not core.close(got, want, rtol=tol, atol=tol):
+            ctx.violation(f"LinearModel(gemini={name!r}, batch_size={bs}).score(X) = {got!r}, the documented objective of predict_proba(X) "
+                          f"on the whole of X is {want!r}", "score:model", {"name": name, "batch_size": bs, "X": X.tolist()},
+                          expected=want, actual=got, key=f"model-score:{name}", how=how)
 
 
 def affinity_then_evaluate(ctx, eps, rs):
@@ -283,7 +329,12 @@ def run(ctx):
             r, calls = e, None
         impl.append(r)
         recs.append(calls)
-        emd = gl.emd_tables(calls, n, K, ovo) if (cls == "wass" and calls is not None) else (np.zeros((K * K + K, 1 + 2 * n)) if cls == "wass" else None)
+        emd = gl.emd_tables_or_none(calls, n, K, ovo) if (cls == "wass" and calls is not None) else None
+        if cls == "wass" and emd is None:
+            if calls is not None:
+                ctx.corr_break("score:wass:pot-calls", {"config": f"wass_{'ovo' if ovo else 'ova'}", "n": n, "K": K},
+                               f"{len(calls)} ot.emd2 calls recorded: not the calls the model is parameterised by")
+            emd = np.zeros((K * K + K, 1 + 2 * n))
         lines.append(gl.model_line("score", cls, ovo, eps, P, A, emd))
     try:
         outs = core.run_driver("Gemini", lines)
